@@ -313,7 +313,7 @@ func TestVerif_C20_ShareGatedHistory(t *testing.T) {
 		}
 		steps := 2 + fairIndex(rt, "steps", 6)
 		for i := 0; i < steps; i++ {
-			switch []string{"genroot-forged", "genroot-forged", "genroot-mixed", "genroot-genuine", "genroot-old", "rekey", "rotate-root", "rotate-root", "rotate-keyring", "write"}[fairIndex(rt, "op", 10)] {
+			switch []string{"genroot-forged", "genroot-forged", "genroot-mixed", "genroot-genuine", "genroot-old", "rekey", "rotate-root", "rotate-root", "rotate-keyring", "write", "genroot-cancelled-then-short"}[fairIndex(rt, "op", 11)] {
 			case "genroot-forged":
 				f := forge(fmt.Sprintf("forged%d-", i), th)
 				forgedSets = append(forgedSets, f)
@@ -325,6 +325,51 @@ func TestVerif_C20_ShareGatedHistory(t *testing.T) {
 				set = append(set, f[0])
 				forgedSets = append(forgedSets, set)
 				generateRoot(set, false, fmt.Sprintf("%d genuine shares and one made-up share", th-1))
+			case "genroot-cancelled-then-short":
+				// k < t genuine shares go into an attempt that is then cancelled; a NEW attempt fed with only t-k genuine
+				// shares must not succeed: shares count per attempt
+				c := tc.c
+				_ = c.GenerateRootCancel(tc.ctx)
+				otp := strings.Repeat("B", TokenPrefixLength+TokenLength)
+				if err := c.GenerateRootInit(tc.ctx, otp, "", GenerateStandardRootTokenStrategy); err != nil {
+					t.Fatalf("harness: generate-root init: %v", err)
+				}
+				conf, err := c.GenerateRootConfiguration(tc.ctx)
+				if err != nil || conf == nil {
+					t.Fatalf("harness: generate-root config: %v", err)
+				}
+				k := 1 + fairIndex(rt, fmt.Sprintf("firstAttemptShares%d", i), th-1)
+				for j := 0; j < k; j++ {
+					if _, err := c.GenerateRootUpdate(tc.ctx, TestKeyCopy(w.keys[j]), conf.Nonce, GenerateStandardRootTokenStrategy); err != nil {
+						t.Fatalf("harness: genuine share refused: %v", err)
+					}
+				}
+				if err := c.GenerateRootCancel(tc.ctx); err != nil {
+					t.Fatalf("harness: cancel: %v", err)
+				}
+				if err := c.GenerateRootInit(tc.ctx, otp, "", GenerateStandardRootTokenStrategy); err != nil {
+					t.Fatalf("harness: generate-root init (2): %v", err)
+				}
+				conf2, err := c.GenerateRootConfiguration(tc.ctx)
+				if err != nil || conf2 == nil {
+					t.Fatalf("harness: generate-root config (2): %v", err)
+				}
+				produced := false
+				for j := k; j < th && th-k < th; j++ {
+					res, err := c.GenerateRootUpdate(tc.ctx, TestKeyCopy(w.keys[j]), conf2.Nonce, GenerateStandardRootTokenStrategy)
+					if err == nil && res != nil && res.EncodedToken != "" {
+						produced = true
+					}
+				}
+				prog, _ := c.GenerateRootProgress(tc.ctx)
+				_ = c.GenerateRootCancel(tc.ctx)
+				hist = append(hist, fmt.Sprintf("generate-root: %d shares into a cancelled attempt, then %d into a new one -> token=%v progress=%d", k, th-k, produced, prog))
+				if produced {
+					fail("root-token-generated-below-threshold:shares-of-a-cancelled-attempt-counted", fmt.Sprintf("a root token was issued after only %d of %d shares were supplied to the attempt (%d more had gone into an earlier, cancelled attempt)", th-k, th, k))
+				}
+				if prog != th-k {
+					fail("root-generation-progress-wrong:shares-of-a-cancelled-attempt-counted", fmt.Sprintf("the new attempt reports progress %d after %d shares (the cancelled attempt had received %d)", prog, th-k, k))
+				}
 			case "genroot-genuine":
 				generateRoot(w.keys[:th], true, "the threshold of genuine shares")
 			case "genroot-old":
